@@ -348,6 +348,7 @@ type gen struct {
 	dead   []int // ids that are no longer valid
 	bad    bool
 	nlog   int64
+	st     *caseState
 	dust   *[nAddrs]int64      // malformed stream: sub-unibi credits so far (Nibiru drops the dust at every commit, the shadow does not)
 	sender int                 // tx sender (-1 in the funding tx): its nonce is managed by the nonce bracket only
 	base   [nAddrs][nKeys]bool // slot non-zero at tx start
@@ -355,7 +356,26 @@ type gen struct {
 
 func (g *gen) emit(op c03Op) []int64 {
 	g.ops = append(g.ops, op)
-	return apply(g.db, g.u, op)
+	r := apply(g.db, g.u, op)
+	if len(r) == 1 && r[0] == -99 && g.st != nil {
+		// The shadow (go-ethereum) panicked.  Expected for a refund underflow and for a revert to
+		// an id the generator knows to be dead; anything else (e.g. a journal revert after a
+		// mid-transaction PrepareAccessList, which geth does not journal) leaves the shadow in a
+		// partially reverted state: balances can no longer be trusted, stop spending.
+		expected := op.K == "subrefund"
+		if op.K == "revert" {
+			expected = true
+			for _, id := range g.snaps {
+				if int64(id) == op.V {
+					expected = false
+				}
+			}
+		}
+		if !expected {
+			g.st.noSpend = true
+		}
+	}
+	return r
 }
 
 func (g *gen) anyAddr() int { return g.r.Intn(nAddrs) }
@@ -401,6 +421,9 @@ func (g *gen) balance(a int) int64 { return bigID(g.db.GetBalance(g.u.addr(a))) 
 // spendable is a lower bound (in unibi) of what both implementations hold for a: the shadow
 // balance minus one unibi per fractional credit ever made to a (no overdraft on either side)
 func (g *gen) spendable(a int) int64 {
+	if g.st != nil && g.st.noSpend {
+		return 0
+	}
 	b := g.balance(a)/wei - g.dust[a]
 	if b < 0 {
 		return 0
@@ -689,15 +712,23 @@ func (g *gen) malformed() {
 		g.emit(c03Op{K: "add", A: a, V: int64(g.r.Range(1, 999_999)) * 1_000_000})
 	case 4: // self-destruct of anything
 		g.emit(c03Op{K: "suicide", A: g.anyAddr()})
-	case 5: // access list preparation in the middle
+	case 5: // access list preparation in the middle (geth resets its list without journaling: the shadow may
+		// panic in a later revert and stop being a faithful mirror of the balances)
+		g.st.noSpend = true
 		d := g.anyAddr()
 		g.emit(c03Op{K: "prepare", A: g.anyAddr(), Dst: &d, Pre: []int{g.anyAddr()}, AL: [][]int{{g.anyAddr(), g.anyKey()}}})
 	}
 }
 
 // genTx produces one transaction on the shadow state.
-func genTx(r *Rng, u universe, shadow *gethSide, first, bad bool, dust *[nAddrs]int64) []c03Op {
-	g := &gen{r: r, u: u, db: shadow.open(), bad: bad, sender: -1, dust: dust}
+// caseState is what the generator remembers across the transactions of one case
+type caseState struct {
+	dust    [nAddrs]int64
+	noSpend bool // the shadow's balances are no longer a lower bound of Nibiru's: no more debits
+}
+
+func genTx(r *Rng, u universe, shadow *gethSide, first, bad bool, st *caseState) []c03Op {
+	g := &gen{r: r, u: u, db: shadow.open(), bad: bad, sender: -1, dust: &st.dust, st: st}
 	for a := 0; a < nAddrs; a++ {
 		for k := 0; k < nKeys; k++ {
 			g.base[a][k] = g.db.GetState(u.addr(a), keyOf(k)) != (gethcommon.Hash{})
@@ -755,10 +786,10 @@ func genCase(r *Rng, bad bool) [][]c03Op {
 	u := universe{ns: 0xffffffff}
 	shadow := newGethSide()
 	var txs [][]c03Op
-	var dust [nAddrs]int64
+	st := &caseState{}
 	n := r.Range(2, 4)
 	for i := 0; i < n; i++ {
-		txs = append(txs, genTx(r, u, shadow, i == 0, bad && i > 0, &dust))
+		txs = append(txs, genTx(r, u, shadow, i == 0, bad && i > 0, st))
 	}
 	return txs
 }
